@@ -11,6 +11,7 @@ Input (ints):  wb sb pb  <models>  encoder-ops...  [9|10 ...  decoder-ops...]
        6              raw parts                -> len bulk.. lower range sit_n sit_w
        7              into_raw_parts / from_raw_parts round trip -> 0
       13              enc := copy made by clone_from into a stale scratch encoder -> 0
+      15              clear()  (documented: the state of a new encoder)               -> 0
       14              enc := enc.clone() (the old one becomes the next scratch)  -> 0
        8 len bulk.. lower range n w   from_raw_parts(explicit)   -> 0 | -5 (RangeCoderState::new refused)
        9 len sfx..    into_compressed, then RangeDecoder::from_compressed(words ++ sfx)
@@ -303,6 +304,34 @@ def gen_roundtrip(rng, with_suffix=False, max_syms=300):
     ops += _decode_ops(rng, msg, snaps_at, len(ms))
     if rng.random() < 0.2:
         ops += [24, rng.choice([10 ** 6, 2 ** 40]), 0, (1 << sb) - 1]     # position beyond the data
+    return _assemble(wb, sb, pb, ms, ops)
+
+
+def gen_clear(rng):
+    """clear() in the middle of a history (documented: the state of a new encoder), preferably on
+    small word types where words are held back for a carry every few symbols; inspections right
+    after it; then a fresh message, seal, decode."""
+    wb, sb, pb = rng.choice([(8, 16, 8), (8, 16, 8), (8, 32, 8), (16, 32, 16), (16, 32, 8), (8, 64, 8), (32, 64, 32)])
+    ms = _models(rng, wb, sb, pb)
+    ops, msg = [], []
+    for _ in range(rng.choice([1, 1, 2, 3])):
+        for _ in range(rng.choice([1, 2, 3, 5, 8, 13, 21, 40])):
+            mi = rng.randrange(len(ms))
+            ops += [1, mi, _in_sym(rng, ms[mi][1])]
+            if rng.random() < 0.05:
+                ops.append(rng.choice(INSPECT))
+        ops.append(15)
+        if rng.random() < 0.6:
+            ops += [3, 2, 3, 6][:rng.randint(1, 4)]
+    n = rng.choice([0, 1, 2, 5, 10, rng.randint(0, 40)])
+    for _ in range(n):
+        mi = rng.randrange(len(ms))
+        s = _in_sym(rng, ms[mi][1])
+        ops += [1, mi, s]
+        msg.append((mi, s))
+    ops += [3, 2, 3]
+    ops += [_seal_op(rng), 0]
+    ops += _decode_ops(rng, msg, [], len(ms), seeks=False)
     return _assemble(wb, sb, pb, ms, ops)
 
 
@@ -854,6 +883,8 @@ def walk(inp, out):
                 yield (6, (), (b, take(4))); i += 1
             elif op in (7, 13, 14):     # raw-parts round trip / clone_from / clone: the same coder
                 yield (7, (), take(1)[0]); i += 1
+            elif op == 15:
+                yield (15, (), take(1)[0]); i += 1
             elif op == 8:
                 n = inp[i + 1]
                 yield (8, (inp[i + 2:i + 2 + n], inp[i + 2 + n:i + 6 + n]), take(1)[0]); i += 6 + n
@@ -959,6 +990,8 @@ def _oracle_roundtrip(inp, out, need_empty_suffix, check_exhausted):
                         return "encoding an in-support symbol failed (%d)" % res[0]
                     h.msg.append((m, s))
                     h.triples.append((h.ms[m][0], e[0], e[1]))
+            elif op == 15:
+                h.msg, h.triples = [], []    # clear(): documented to be the state of a new encoder
             elif op == 8:
                 if res == 0:
                     return None          # explicit raw parts: outside "a message encoded by a fresh encoder"
@@ -1015,6 +1048,8 @@ def oracle_C06(inp, out):
                 e = h.insup(*args)
                 if e is not None and res[0] == 0:
                     h.triples.append((h.ms[args[0]][0], e[0], e[1]))
+            elif op == 15:
+                h.triples = []
             elif op == 8 and res == 0:
                 return None
             elif op in (2, 9):
@@ -1045,7 +1080,7 @@ def oracle_C07(inp, out):
                     h.msg.append(args)
             elif op == 4:
                 h.snaps.append(len(h.msg))
-            elif op == 8 and res == 0:
+            elif (op == 8 and res == 0) or op == 15:
                 return None
             elif op == 10:
                 return None
@@ -1087,7 +1122,7 @@ def oracle_C08(inp, out):
         for op, args, res in walk(inp, out):
             if op == 1:
                 last_raw, last_view = tuple(res[1:]), None
-            elif op == 8:
+            elif op in (8, 15):
                 last_raw, last_view = None, None
             elif op == 2:
                 if last_view is not None and list(res) != last_view:
@@ -1124,7 +1159,7 @@ def oracle_C09(inp, out):
                     if prev is not None and tuple(res[1:]) != prev:
                         return "failed encode changed the coder"
                 prev = tuple(res[1:])
-            elif op == 8:
+            elif op in (8, 15):
                 prev = None
             elif op in (9, 10):
                 break
@@ -1184,7 +1219,7 @@ def oracle_C12(inp, out):
                     if res[1] + res[3] > prev_len + 1:
                         return "more than one word per symbol"
                     prev_len = res[1] + res[3]
-            elif op == 8 and res == 0:
+            elif (op == 8 and res == 0) or op == 15:
                 return None
             elif op in (2, 9):
                 n = len(h.triples)
@@ -1222,7 +1257,7 @@ def oracle_C18(inp, out):
                 sizes = res
                 if res[1] != wb * res[0]:
                     return "num_bits != WordBits * num_words"
-            elif op in (1, 8):
+            elif op in (1, 8, 15):
                 sizes = None
             elif op in (2, 9) and sizes is not None:
                 if sizes[0] != len(res):
